@@ -696,10 +696,16 @@ class Sym:
     rad2deg = degrees
 
     def cos(self):
-        return Sym(_trig(self.e)[0])
+        r = _trig(self.e)[0]
+        h = fconst(PI / 2)
+        ctx().axiom(("cosrange", r.get_id()), z3.And(z3.Implies(z3.And(self.e > -h, self.e < h), r > 0), z3.Implies(z3.And(self.e >= -h, self.e <= h), r >= 0),
+                                                     z3.Implies(self.e == 0, r == 1), r <= 1, r >= -1))
+        return Sym(r, self.nan)
 
     def sin(self):
-        return Sym(_trig(self.e)[1])
+        r = _trig(self.e)[1]
+        ctx().axiom(("sinrange", r.get_id()), z3.And(z3.Implies(z3.And(self.e > 0, self.e < fconst(PI)), r > 0), z3.Implies(self.e == 0, r == 0), r <= 1, r >= -1))
+        return Sym(r, self.nan)
 
     def arctan2(self, o):
         oz = _tz(o)
@@ -806,7 +812,7 @@ def _trig(e):
 
 def _pow_uf(b, p):
     t = UF["pow"](b, p)
-    ctx().axiom(("pow", t.get_id()), z3.And(z3.Implies(b > 0, t > 0), z3.Implies(b == 1, t == 1), z3.Implies(p == 0, t == 1), z3.Implies(z3.And(b == 0, p > 0), t == 0)))
+    ctx().axiom(("pow", t.get_id()), z3.And(z3.Implies(b > 0, t > 0), z3.Implies(b >= 0, t >= 0), z3.Implies(b == 1, t == 1), z3.Implies(p == 0, t == 1), z3.Implies(z3.And(b == 0, p > 0), t == 0)))
     return t
 
 
